@@ -11,7 +11,7 @@ awkward_NumpyArray_fill_tobool(bool* toptr,
                                const FROM* fromptr,
                                int64_t length) {
   for (int64_t i = 0; i < length; i++) {
-    toptr[tooffset + i] = fromptr[i] > 0 ? true : false;
+    toptr[tooffset + i] = fromptr[i] != 0 ? true : false;
   }
   return success();
 }
